@@ -515,6 +515,43 @@ func (c *Ctx) ruleU3(rule string) {
 			})
 		}
 		c.Check(rule, "GenginePool.RemoveRules#removes-on-every-instance", ok, p, "the removal must reach every instance: applied with the caller's names to every element of gp.rbSlice, or the master's new container stored into gp.rbSlice[i].Kc for all i in [0,max)")
+		// ... whenever the master's own removal went through: from the master's removal no
+		// path reaches a return without entering the loop over the instances, except the
+		// return of the master's error
+		var master *ssa.Call
+		eachInstr(f, func(in ssa.Instruction) {
+			cl, isCall := in.(*ssa.Call)
+			if !isCall || !calleeIs(cl, pBuilder, "RuleBuilder", "RemoveRules") {
+				return
+			}
+			if b, is := x.isFieldLoad(cl.Call.Args[0], "GenginePool", "ruleBuilder"); is && x.Origin(b) == ssa.Value(f.Params[0]) {
+				master = cl
+			}
+		})
+		if master != nil && ok {
+			var loopHead ssa.Instruction
+			at := call
+			var atIn ssa.Instruction
+			if at != nil {
+				atIn = at
+			}
+			eachInstr(f, func(in ssa.Instruction) {
+				if st, isSt := in.(*ssa.Store); isSt && st.Pos() == p && atIn == nil {
+					atIn = st
+				}
+			})
+			if atIn != nil {
+				if l := x.InnermostLoop(atIn.Block()); l != nil {
+					loopHead = l.Head.Instrs[0]
+				}
+			}
+			_, errSet := x.nilEdges(f, func(v ssa.Value) bool { return x.Origin(v) == ssa.Value(master) })
+			skipped := loopHead == nil
+			if loopHead != nil {
+				_, skipped = pathExistsEB(f, master, isReturn, errSet, func(in ssa.Instruction) bool { return in == loopHead })
+			}
+			c.Check(rule, "GenginePool.RemoveRules#instances-follow-master", !skipped, master.Pos(), "once the master's removal has gone through, every path must go on to the loop over the instances: a return in between leaves the instances with the removed rules")
+		}
 	}
 	// len(rbSlice) == max by construction: checked in ruleConstruction
 }
